@@ -394,6 +394,50 @@ def w_cover(arg):
     return rec
 
 
+def w_growth(arg):
+    """in-place mutation of objects parsed from old-format (GnuPG-style) input: an edited user id and a signature that
+    gains an unhashed subpacket, growing the body to just below, exactly at and just above each width boundary"""
+    import pgpy
+    rec = harness.Rec()
+    base = keypool.ref_cert('ed25519-0', uids=('A',), secret=False, fmt='old')
+    for target in (254, 255, 256, 257, 300, 65534, 65535, 65536, 65537):
+        case = {'kind': 'growth', 'target': target}
+        try:
+            k = pgpy.PGPKey.from_blob(base)[0]
+            u = k.userids[0]
+            u._uid.uid = 'u' * target
+            u._uid.update_hlen()
+            out = bytes(k)
+            pk = wire.split_packets(out)
+            ok = [p.tag for p in pk] == [6, 13, 2] and pk[1].body == b'u' * target
+        except Exception as e:   # noqa
+            ok = False
+            out = repr(e).encode()
+        rec.case(('growth-uid', target), True, ['own/growth-uid'], {'edit': 'user id of an old-format key grown to %d octets' % target})
+        if not ok:
+            rec.finding('own-roundtrip', 'grown-old-format-packet-badly-framed/userid', case, out[:24].hex() if isinstance(out, bytes) else str(out))
+        # signature packet parsed from an old-format header, unhashed subpacket added
+        try:
+            sigp = [p for p in wire.split_packets(base) if p.tag == 2][0]
+            sig = pgpy.PGPSignature.from_blob(sigp.raw)
+            cur = len(sigp.body)
+            pad = target - cur - 3 if target - cur - 3 < 191 else target - cur - 4
+            if target > 60000 or pad < 1:
+                continue
+            sig._signature.subpackets.addnew('Policy', hashed=False, uri='p' * pad)
+            sig._signature.update_hlen()
+            out = bytes(sig)
+            q = wire.split_packets(out)
+            ok = len(q) == 1 and q[0].tag == 2 and pgpy.PGPSignature.from_blob(out) is not None
+            rec.case(('growth-sig', target, len(q[0].body) if ok else 0), True, ['own/growth-sig'], {'edit': 'old-format signature grown to %d octets' % (len(q[0].body) if ok else -1)})
+        except Exception as e:   # noqa
+            ok = False
+            out = repr(e).encode()
+        if not ok:
+            rec.finding('own-roundtrip', 'grown-old-format-packet-badly-framed/signature', case, out[:24].hex())
+    return rec
+
+
 def w_fixtures(arg):
     """the repository's packet fixtures as foreign seeds"""
     import glob
@@ -430,7 +474,7 @@ def w_fixtures(arg):
 
 
 def run(tier, seed):
-    tasks = [('w_cover', (p, 6)) for p in range(6)] + [('w_fixtures', None)]
+    tasks = [('w_cover', (p, 6)) for p in range(6)] + [('w_fixtures', None), ('w_growth', None)]
     n, bsec = (45, 80) if tier == 'quick' else (1500, 1200)
     for i in range(9 if tier == 'quick' else 25):
         tasks.append(('shard', (seed, i, n, bsec)))
@@ -445,6 +489,8 @@ def replay(case):
     rec = harness.Rec()
     if case.get('kind') == 'fixture':
         rec = w_fixtures(None)
+    elif case.get('kind') == 'growth':
+        rec = w_growth(None)
     else:
         c = dict(case)
         if c['kind'] == 'sig' and 'trust' in c['sig'].get('opts', {}):
